@@ -386,6 +386,9 @@ func (m *Encoder) encodeStruct(v reflect.Value) error {
 	if t == decimalType {
 		return m.encodeDecimal(v)
 	}
+	if t == bigIntType {
+		return m.encodeBigInt(v)
+	}
 
 	if err := m.w.BeginStruct(); err != nil {
 		return err
@@ -445,6 +448,12 @@ func (m *Encoder) encodeTimeDate(v reflect.Value) error {
 	// Time.Date has nano second component
 	timestamp := NewTimestampWithFractionalSeconds(t, TimestampPrecisionNanosecond, kind, maxFractionalPrecision)
 	return m.w.WriteTimestamp(timestamp)
+}
+
+// encodeBigInt encodes a big.Int to the output writer as an Ion int.
+func (m *Encoder) encodeBigInt(v reflect.Value) error {
+	i := v.Interface().(big.Int)
+	return m.w.WriteBigInt(&i)
 }
 
 // EncodeDecimal encodes an ion.Decimal to the output writer as an Ion decimal.
